@@ -304,3 +304,35 @@ Definition keeps_mtime (s : step) : bool := match s with Edit _ (Some _) k => k 
    the mtime; with the engine's own loader (or caching off) nothing is assumed beyond a new stat version *)
 Definition history_ok (cfg : config) (h : list step) : bool :=
   negb (fsl_cached cfg) || forallb (fun s => negb (keeps_mtime s)) h.
+
+(* ---------- two live engines in one process ---------- *)
+(* engines share the file system and nothing else: every engine has its own configuration and template cache.
+   A step is an edit, a render on engine A (observed), a render on engine B, or the construction of a new
+   engine B with another configuration (its cache starts empty). *)
+Inductive step2 :=
+| S2Edit (path : bytes) (new : option content) (keep_mtime : bool)
+| S2RenderA (name : bytes) (caller : ctx)
+| S2RenderB (name : bytes) (caller : ctx)
+| S2NewB (cfg : config).
+
+Fixpoint run2 (fuel : nat) (cfgA cfgB : config) (st : est) (cacheB : tcache) (h : list step2) : list (res bytes) :=
+  match h with
+  | [] => []
+  | S2Edit p new k :: r => run2 fuel cfgA cfgB (do_edit st p new k) cacheB r
+  | S2RenderA name caller :: r =>
+      let '(c', out) := render fuel cfgA (s_fs st) (s_cache st) name caller in
+      out :: run2 fuel cfgA cfgB {| s_fs := s_fs st; s_cache := c'; s_next := s_next st |} cacheB r
+  | S2RenderB name caller :: r =>
+      let '(cB', _) := render fuel cfgB (s_fs st) cacheB name caller in
+      run2 fuel cfgA cfgB st cB' r
+  | S2NewB cfg' :: r => run2 fuel cfgA cfg' st [] r
+  end.
+
+(* the history as engine A alone sees it *)
+Fixpoint only_A (h : list step2) : list step :=
+  match h with
+  | [] => []
+  | S2Edit p new k :: r => Edit p new k :: only_A r
+  | S2RenderA name caller :: r => Render name caller :: only_A r
+  | _ :: r => only_A r
+  end.
